@@ -19,7 +19,7 @@ structure State (α : Type) where
   items          : List (Item α)   -- sorted by `less`, head = next to be dequeued
   insertionCount : Nat
   closed         : Bool
-deriving Repr
+deriving DecidableEq, Repr
 
 variable {α : Type}
 
